@@ -517,9 +517,9 @@ func genCase(cfg genConfig) *rapid.Generator[Case] {
 					var kind string
 					if h == "mulHint" || h == "polyMvHint" {
 						kind = rapid.SampledFrom([]string{"r+d", "r+d", "r+p", "r+p", "wrap", "wrap", "wrap", "wrap0", "stuff", "stuff",
-							"kshift", "carry", "recarry"}).Draw(t, "kind")
+							"kshift", "carry", "recarry", "rwide", "rwide"}).Draw(t, "kind")
 					} else {
-						kind = rapid.SampledFrom([]string{"o+d", "o+d", "zero", "neg", "o+p", "clearerr"}).Draw(t, "kind")
+						kind = rapid.SampledFrom([]string{"o+d", "o+d", "zero", "neg", "o+p", "owide", "clearerr"}).Draw(t, "kind")
 					}
 					set = append(set, Strat{Hint: h, Seq: rapid.IntRange(0, 63).Draw(t, "seq"), Kind: kind,
 						D: rapid.SampledFrom([]int{1, 1, -1, 2, 3, 1000}).Draw(t, "d")})
